@@ -687,15 +687,174 @@ Section Containers.
   Qed.
 End Containers.
 
-(* a closed-form transformer reading its input through check_X *)
-Lemma closed_form_container_irrelevant t th n c T (x : K.nested Q) (to_np to_pd : bool) :
-  SkV.C15.Main.wf_nested n c T x -> to_np && to_pd = false ->
-  match internal to_np to_pd (K.RA (K.nested_to_3d x)) with Ok p => tapply t th p | Err => Err end =
-  tapply t th (K.n_rows x) /\
-  match internal to_np to_pd (K.RN x) with Ok p => tapply t th p | Err => Err end =
-  tapply t th (K.n_rows x) /\
-  (forall pfit : panel, tfit t (K.nested_to_3d x) = tfit t (K.n_rows x)).
+(* a closed-form transformer reading its input through check_X, at apply and at fit *)
+Definition tapply_rep (t : tconf) (th : nat) (to_np to_pd : bool) (r : K.rep Q) : res panel :=
+  match internal to_np to_pd r with Ok p => tapply t th p | Err => Err end.
+Definition tfit_rep (t : tconf) (to_np to_pd : bool) (r : K.rep Q) : res nat :=
+  rmap (tfit t) (internal to_np to_pd r).
+
+Lemma closed_form_container_irrelevant t n c T (x : K.nested Q) n' c' T' (xfit : K.nested Q)
+      (to_np to_pd : bool) :
+  SkV.C15.Main.wf_nested n c T x -> SkV.C15.Main.wf_nested n' c' T' xfit ->
+  to_np && to_pd = false ->
+  tfit_rep t to_np to_pd (K.RA (K.nested_to_3d xfit)) = tfit_rep t to_np to_pd (K.RN xfit) /\
+  tfit_rep t to_np to_pd (K.RN xfit) = Ok (tfit t (K.n_rows xfit)) /\
+  forall th, tapply_rep t th to_np to_pd (K.RA (K.nested_to_3d x)) =
+             tapply_rep t th to_np to_pd (K.RN x) /\
+             tapply_rep t th to_np to_pd (K.RN x) = tapply t th (K.n_rows x).
 Proof.
-  intros Hwf Hf. destruct (internal_same n c T x to_np to_pd Hwf Hf) as [H1 H2].
-  rewrite H1, H2. repeat split; reflexivity.
+  intros Hwf Hwf' Hf. destruct (internal_same n c T x to_np to_pd Hwf Hf) as [H1 H2].
+  destruct (internal_same n' c' T' xfit to_np to_pd Hwf' Hf) as [H3 H4].
+  unfold tfit_rep, tapply_rep. rewrite H1, H2, H3, H4. repeat split; reflexivity.
+Qed.
+
+(* --- the closed-form family, concretely: selection, permutation, single instance ------------- *)
+
+Lemma closed_form_selection t pfit X Y idx :
+  X <> [] -> (forall x, In x X -> x <> []) ->
+  tapply t (tfit t pfit) X = Ok Y ->
+  idx <> [] -> valid_idx (length X) idx = true ->
+  tapply t (tfit t pfit) (pick idx X) = Ok (pick idx Y) /\ Y = map (tfun t (tfit t pfit)) X.
+Proof.
+  intros Hne Hd HY Hi Hv. split.
+  - exact (guarded_selection tdom _ _ (closed_form_instancewise t (tfit t pfit)) X Y idx Hne Hd HY Hi Hv).
+  - exact (guarded_output tdom _ _ (closed_form_instancewise t (tfit t pfit)) X Y HY).
+Qed.
+
+Lemma closed_form_permutation t pfit X Y X' :
+  (forall x, In x X -> x <> []) -> tapply t (tfit t pfit) X = Ok Y -> Permutation X X' ->
+  exists idx, Permutation idx (seq 0 (length X)) /\ X' = pick idx X /\
+              tapply t (tfit t pfit) X' = Ok (pick idx Y).
+Proof.
+  intros Hd HY Hp.
+  exact (guarded_permutation tdom _ _ (closed_form_instancewise t (tfit t pfit)) X Y X' Hd HY Hp).
+Qed.
+
+Lemma closed_form_single t pfit X Y i x :
+  (forall z, In z X -> z <> []) -> tapply t (tfit t pfit) X = Ok Y -> nth_error X i = Some x ->
+  tapply t (tfit t pfit) [x] = Ok [tfun t (tfit t pfit) x] /\
+  nth_error Y i = Some (tfun t (tfit t pfit) x) /\ length Y = length X.
+Proof.
+  intros Hd HY Hx.
+  destruct (guarded_single tdom _ _ (closed_form_instancewise t (tfit t pfit)) X Y i x Hd HY Hx)
+    as [H1 H2].
+  split; [exact H1|]. split; [exact H2|].
+  apply (guarded_rows tdom _ _ (closed_form_instancewise t (tfit t pfit)) X Y HY).
+Qed.
+
+(* non-vacuity: a concrete panel, a concrete permutation, a concrete nested frame *)
+Definition ex_panel : panel := [[[1%Q; 2%Q; 3%Q]]; [[4%Q; 5%Q]]; [[6%Q]]].
+Definition ex_nested : K.nested Q :=
+  K.mkN K.KSeries [K.NInt 0%Z] [[[1%Q; 2%Q]]; [[3%Q; 4%Q]]; [[5%Q; 6%Q]]].
+
+Lemma ex_nonvacuous :
+  Permutation [2; 0; 1] (seq 0 (length ex_panel)) /\
+  pick [2; 0; 1] ex_panel = [[[6%Q]]; [[1%Q; 2%Q; 3%Q]]; [[4%Q; 5%Q]]] /\
+  tapply (TPad None 0%Q) (tfit (TPad None 0%Q) ex_panel) ex_panel =
+    Ok [[[1%Q; 2%Q; 3%Q]]; [[4%Q; 5%Q; 0%Q]]; [[6%Q; 0%Q; 0%Q]]] /\
+  tapply (TPad None 0%Q) (tfit (TPad None 0%Q) ex_panel) (pick [2; 0; 1] ex_panel) =
+    Ok (pick [2; 0; 1] [[[1%Q; 2%Q; 3%Q]]; [[4%Q; 5%Q; 0%Q]]; [[6%Q; 0%Q; 0%Q]]]) /\
+  SkV.C15.Main.wf_nested 3 1 2 ex_nested.
+Proof.
+  split.
+  - cbn. apply Permutation_sym. apply (perm_trans (l' := [0; 2; 1])).
+    + constructor. apply perm_swap.
+    + apply perm_swap.
+  - split; [reflexivity|]. split; [vm_compute; reflexivity|]. split; [vm_compute; reflexivity|].
+    apply SkV.C15.Main.wf_nestedb_iff. vm_compute. reflexivity.
+Qed.
+
+(* --- statements of Props.v that combine several lemmas ------------------------------------- *)
+
+Lemma thm_subselection : forall (I O : Type) (f : I -> O) X idx,
+  valid_idx (length X) idx = true ->
+  apply_map f (pick idx X) = pick idx (apply_map f X) /\
+  length (apply_map f (pick idx X)) = length idx /\
+  (forall k j, nth_error idx k = Some j ->
+     nth_error (apply_map f (pick idx X)) k = nth_error (apply_map f X) j).
+Proof. intros I O f X idx H. split; [apply map_pick|apply map_subselection; exact H]. Qed.
+
+Lemma thm_closed_form_is_instancewise : forall t th,
+  (forall p, tapply t th p = if tguard t th p then Ok (map (tfun t th) p) else Err) /\
+  local_guard (fun i : inst => i <> []) (tguard t th) /\
+  instancewise_on (fun i : inst => i <> []) (tapply t th) (tfun t th).
+Proof.
+  intros t th. split; [exact (tapply_form t th)|].
+  split; [exact (tguard_local t th)|exact (closed_form_instancewise t th)].
+Qed.
+
+Lemma thm_pad_and_truncate_are_instancewise : forall req fill lower upper pfit,
+  pad_fit None pfit = max_len pfit /\ trunc_fit None pfit = min_len pfit /\
+  instancewise_on (fun i : inst => i <> []) (pad_apply (pad_fit req pfit) fill)
+                  (map (pad_series (pad_fit req pfit) fill)) /\
+  instancewise_on (fun i : inst => i <> []) (trunc_apply (trunc_fit lower pfit) upper)
+    (match upper with
+     | None => map (slice 0 (trunc_fit lower pfit))
+     | Some u => map (slice (trunc_fit lower pfit) u)
+     end).
+Proof.
+  intros. split; [reflexivity|]. split; [reflexivity|].
+  split; [apply pad_is_instancewise|apply truncate_is_instancewise].
+Qed.
+
+Lemma thm_other_closed_forms_are_instancewise :
+  (forall m, instancewise_on (fun i : inst => i <> []) (interp_apply m) (map (interp_series m))) /\
+  instancewise_on (fun i : inst => i <> []) (fun p => rows_as_panel (tabularize p))
+                  (fun i => [tab_row i]) /\
+  instancewise_on (fun i : inst => i <> []) col_concat (fun i => [tab_row i]) /\
+  (forall m, instancewise_on (fun i : inst => i <> []) (paa_apply m) (map (paa_coded m))) /\
+  (forall k pfit, instancewise_on (fun i : inst => i <> []) (iseg_int k pfit)
+     (fun i => segment (split_bounds (first_len pfit) k) (only_col i))) /\
+  (forall ivs, instancewise_on (fun i : inst => i <> []) (iseg_arr ivs)
+     (fun i => segment ivs (only_col i))) /\
+  (forall w, instancewise_on (fun i : inst => i <> []) (sliding_apply w)
+     (fun i => sliding_coded w (only_col i))) /\
+  (forall sf, instancewise_on (fun i : inst => i <> []) (row_s2s sf) (map (sfun_apply sf))) /\
+  (forall g, instancewise_on (fun i : inst => i <> []) (fun p => rows_as_panel (row_s2p g p))
+     (fun i => [map (pfun_apply g) i])).
+Proof.
+  split; [exact interpolate_is_instancewise|]. split; [exact tabularize_is_instancewise|].
+  split; [exact concatenate_is_instancewise|]. split; [exact paa_is_instancewise|].
+  split; [intros k pfit; exact (proj1 (interval_segmenter_int_is_instancewise k pfit))|].
+  split; [exact interval_segmenter_arr_is_instancewise|].
+  split; [exact sliding_window_is_instancewise|].
+  split; [exact row_s2s_is_instancewise|exact row_s2p_is_instancewise].
+Qed.
+
+Lemma thm_validated_estimators : forall (I O : Type) (dom : I -> Prop)
+    (A : list I -> res (list O)) (f : I -> O),
+  instancewise_on dom A f ->
+  forall X Y, (forall x, In x X -> dom x) -> A X = Ok Y ->
+    (length Y = length X /\ forall i, nth_error Y i = option_map f (nth_error X i)) /\
+    (forall idx, X <> [] -> idx <> [] -> valid_idx (length X) idx = true ->
+       A (pick idx X) = Ok (pick idx Y)) /\
+    (forall X', Permutation X X' ->
+       exists idx, Permutation idx (seq 0 (length X)) /\ X' = pick idx X /\
+                   A X' = Ok (pick idx Y)) /\
+    (forall i x, nth_error X i = Some x -> A [x] = Ok [f x] /\ nth_error Y i = Some (f x)).
+Proof.
+  intros I O dom A f HA X Y Hd HY. split; [exact (guarded_rows dom A f HA X Y HY)|].
+  split; [intros idx Hne Hi Hv; exact (guarded_selection dom A f HA X Y idx Hne Hd HY Hi Hv)|].
+  split; [intros X' Hp; exact (guarded_permutation dom A f HA X Y X' Hd HY Hp)|].
+  intros i x Hx. exact (guarded_single dom A f HA X Y i x Hd HY Hx).
+Qed.
+
+Lemma thm_closed_form_selection_permutation_single : forall t pfit X Y,
+  (forall x, In x X -> x <> []) -> tapply t (tfit t pfit) X = Ok Y ->
+  Y = map (tfun t (tfit t pfit)) X /\ length Y = length X /\
+  (forall idx, X <> [] -> idx <> [] -> valid_idx (length X) idx = true ->
+     tapply t (tfit t pfit) (pick idx X) = Ok (pick idx Y)) /\
+  (forall X', Permutation X X' ->
+     exists idx, Permutation idx (seq 0 (length X)) /\ X' = pick idx X /\
+                 tapply t (tfit t pfit) X' = Ok (pick idx Y)) /\
+  (forall i x, nth_error X i = Some x ->
+     tapply t (tfit t pfit) [x] = Ok [tfun t (tfit t pfit) x] /\
+     nth_error Y i = Some (tfun t (tfit t pfit) x)).
+Proof.
+  intros t pfit X Y Hd HY.
+  split; [exact (guarded_output _ _ _ (closed_form_instancewise t (tfit t pfit)) X Y HY)|].
+  split; [exact (proj1 (guarded_rows _ _ _ (closed_form_instancewise t (tfit t pfit)) X Y HY))|].
+  split; [intros idx Hne Hi Hv; exact (proj1 (closed_form_selection t pfit X Y idx Hne Hd HY Hi Hv))|].
+  split; [intros X' Hp; exact (closed_form_permutation t pfit X Y X' Hd HY Hp)|].
+  intros i x Hx. destruct (closed_form_single t pfit X Y i x Hd HY Hx) as [H1 [H2 _]]. auto.
 Qed.
